@@ -142,6 +142,10 @@ def check(res):
         kind = ["scope", "param", "base", "enum", "xlist"][i % 5]
         ln = rnd.choice([0, 1, 2, 5, 12, 30] + ([300] if res.tier != "quick" and i % 40 == 0 else []))
         glines.append("%s %s" % (kind, " ".join(str(rnd.randrange(8)) for _ in range(ln))))
+    # long members lists: past 256 and 512 members (and 4096 in the thorough tier), no two neighbours of the same type
+    for kind in ("scope", "param", "base", "enum", "xlist"):
+        for ln in ([600] if res.tier == "quick" else [600, 1100, 4200]):
+            glines.append("%s %s" % (kind, " ".join(str((j * 3 + j // 8) % 8) for j in range(ln))))
     gouts, gcr = run_cases(gexe, glines, env=SAN_ENV)
     for idx, err in gcr[:2]:
         res.violation("crash:growth", "sequence growth driver aborted", {"script": glines[idx], "stderr": err[-3000:]})
